@@ -69,7 +69,9 @@ def expected(l):
     """python reference, used ONLY to label violations and to count non-trivial cases"""
     a = (int(l["a"][0]), int(l["a"][1]))
     b = (int(l["b"][0]), int(l["b"][1]))
-    if a[0] < 0 or b[0] < 0:
+    if a[0] < 0 or b[0] < 0 or not (0 <= a[1] < NPS) or not (0 <= b[1] < NPS):
+        # outside the statement's quantifier (negative seconds; or a non-normalised value, which only
+        # a defective operation can have produced for the driver's result chains): panic-freedom only
         return "nopanic", False
     ta, tb = a[0] * NPS + a[1], b[0] * NPS + b[1]
     op = l["op"]
